@@ -27,7 +27,7 @@ PROPS = {
         outside=COMMON_OUTSIDE + ["peek_bits(n) with n > W on the buffered reader (see C05)", "unary runs longer than the stated window"],
     ),
     "C03": dict(
-        prefixes=["c03_"],
+        prefixes=["c03_", "c01_write_bits", "c01_write_unary", "c02_read_bits", "c02_read_unary", "c02_ub_read_bits", "c02_ub_read_unary"],
         level_text="Bounded model checking of the real generic codec code (src/codes/*.rs, every write_*/read_* incl. table variants) executed on a model bit stream implementing the library's own BitRead/BitWrite traits: symbolic value over the full 64-bit domain, symbolic parameters, symbolic bit offset (0..=64) and arbitrary following bits; asserts value round trip, exact consumption and intact neighbours. Combination with every real writer/reader word size follows compositionally from C01/C02 (the real streams refine the same canonical model); end-to-end real-writer/real-reader runs are in the thorough tier.",
         assumptions=[
             "value domain: v <= 2^64-2 (documented maximum) for gamma/delta/omega/zeta/pi/exp-Golomb, any u64 for VByte/Rice; zeta k in 1..=63; pi/Rice/exp-Golomb k in 0..=63; minimal binary 1<=u<2^64, v<u",
@@ -92,6 +92,7 @@ PROPS = {
     ),
     "C04": dict(
         prefixes=["c03_w", "c03_ms_selfcheck", "c03_rt"],
+        pre=["oracle"],
         level_text="Bounded model checking of every real code writer (src/codes/*.rs, table and non-table variants) on a model bit stream against a specification of the codewords written from the module documentation only (harness/src/spec.rs: per-bit, loop-free): for symbolic value, parameters and bit offset, the number of bits appended equals the definition's length and every appended bit (nondeterministic index) equals the definition's bit, for both endiannesses with the documented little-endian conventions. Writer word sizes follow from C01 (every real writer refines the same canonical stream).",
         assumptions=[
             "the specification in spec.rs is the published definition (validated natively against the literal vectors of the repository's tests/docs and its Python reference generator by oracle/validate.py)",
@@ -158,6 +159,7 @@ PROPS = {
     ),
     "C16": dict(
         prefixes=["c16_"],
+        pre=["display"],
         heavy="c16_parse",
         level_text="Bounded model checking of Codes::{from_code_const,to_code_const,eq,from_str}: all identifiers 0..=50 and out-of-range ones; code->identifier->code gives identical codewords on a model stream with symbolic values; == holds exactly inside the classes of codes with identical codewords (symbolic variants and parameters over the full usize range) and the members of each class have identical codewords; FromStr parses the literal names, Name(k) with symbolic one/two-digit k, and rejects malformed texts. Display is executed natively only (see outside_claim).",
         assumptions=[
